@@ -58,8 +58,10 @@ Definition stmt_relay_line_cases : Prop := forall r l,
   | LBlocked => snd (relay_line r l) = r /\ (chan_cap <= length (r_chan r))%nat
   end.
 
-(* a failing send never stops ingestion: the sender can always take the next line, so a blocked
-   RelayLine is unblocked after one sender step, whatever the socket answers *)
-Definition stmt_relay_never_stuck : Prop := forall r l ok,
+(* a failing send never stops ingestion: on every reachable state the sender can always take the
+   next line, so a blocked RelayLine is unblocked after one sender step, whatever the socket
+   answers *)
+Definition stmt_relay_never_stuck : Prop := forall plen ops l ok,
+  let r := rrun (new_relay plen) ops in
   fst (relay_line r l) = LBlocked ->
   exists r', sender_recv r ok = Some r' /\ fst (relay_line r' l) <> LBlocked.
